@@ -124,3 +124,69 @@ void harness (void)
   XV_CANARY ("be32_vect");
 }
 #endif
+
+#ifdef L_yescrypt_uint32_codec
+/* lib/alg-yescrypt-common.c: the variable-length radix-64 number codec that
+   carries the flavor, N, r, p, t, g and NROM fields of $y$ / $gy$ settings
+   (and the fixed-width form used by $7$).  decode (encode (v)) == v for every
+   32-bit v and minimum: what crypt_gensalt writes is what crypt reads (C10),
+   and what crypt echoes in its result is what a re-hash reads (C01).
+   Every loop is bounded by the 32-bit operand width (at most 6 characters),
+   so the stated unwind with unwinding assertions is exhaustive.  */
+#include "lib/alg-yescrypt-common.c"
+void harness (void)
+{
+  XV_IN (uint32_t, v, nondet_uint);
+  XV_IN (uint32_t, min, nondet_uint);
+  XV_IN (size_t, dlen, nondet_size);
+  XV_ASSUME (dlen <= 16);
+  uint8_t buf[16];
+  uint8_t *e = encode64_uint32 (buf, dlen, v, min);
+  if (v < min)
+    {
+      XV_ASSERT ("C10,C11", e == NULL, "a value below the field's minimum is refused");
+      XV_CANARY ("below minimum");
+    }
+  else if (e != NULL)
+    {
+      size_t n = (size_t) (e - buf);
+      XV_ASSERT ("C04,C13", n >= 1 && n <= 6 && n < dlen && buf[n] == 0,
+                 "1..6 characters plus a NUL, all inside dstlen");
+      XV_IN (size_t, k, nondet_size);
+      XV_ASSUME (k < n);
+      XV_ASSERT ("C06,C10", buf[k] < 0x80 && buf[k] >= '.' && atoi64 (buf[k]) <= 63,
+                 "every character written belongs to the radix-64 alphabet");
+      uint32_t back = ~v;
+      const uint8_t *d = decode64_uint32 (&back, buf, min);
+      XV_ASSERT ("C10,C01", d == e && back == v,
+                 "decode64_uint32 reads back exactly the value, consuming exactly the characters written");
+      XV_CANARY ("round trip");
+    }
+  else
+    {
+      /* six characters carry 48 + (8 << 6) + (4 << 12) + (2 << 18) + (1 << 24) + (1 << 30) values */
+      XV_ASSERT ("C13,C11", dlen <= 6 || v - min >= 1091059272u,
+                 "refused only for lack of room (6 characters and a NUL always suffice) or for an offset above the codec's range");
+      XV_CANARY ("no room");
+    }
+
+  /* fixed-width form: srcbits in {30} at the call sites ($7$ r and p), any here */
+  XV_IN (uint32_t, w, nondet_uint);
+  XV_IN (uint32_t, bits, nondet_uint);
+  XV_ASSUME (bits <= 30);
+  uint8_t fb[16];
+  uint8_t *fe = encode64_uint32_fixed (fb, sizeof fb, w, bits);
+  uint32_t nch = (bits + 5) / 6;             /* <= 5 characters, <= 30 bits */
+  XV_ASSERT ("C13,C11", (fe != NULL) == ((w >> (6 * nch)) == 0),
+             "refused exactly when the value does not fit ceil(bits/6) characters");
+  if (fe != NULL)
+    {
+      XV_ASSERT ("C13", (size_t) (fe - fb) == nch && *fe == 0, "ceil(bits/6) characters and a NUL");
+      uint32_t fback = ~w;
+      const uint8_t *fd = decode64_uint32_fixed (&fback, bits, fb);
+      XV_ASSERT ("C10,C01", fd == fe && fback == w,
+                 "decode64_uint32_fixed reads back exactly the value, consuming exactly the characters written");
+    }
+  XV_CANARY ("fixed round trip");
+}
+#endif
